@@ -693,7 +693,11 @@ func (g *graph) compile(ctx context.Context, opt *graphCompileOptions) (*composa
 	for key, handlers := range g.handlerPreNode {
 		handlerPreNode[key] = append([]handlerPair(nil), handlers...)
 	}
+	// nodes whose input goes through the field-mapping converter: what reaches them is a
+	// map[string]any of the mapped fields, the converter builds the node's input from it.
+	fieldMappedNodes := make(map[string]bool, len(g.fieldMappingRecords))
 	for key := range g.fieldMappingRecords {
+		fieldMappedNodes[key] = true
 		// not allowed to map multiple fields to the same field
 		toMap := make(map[string]bool)
 		for _, mapping := range g.fieldMappingRecords[key] {
@@ -798,6 +802,8 @@ func (g *graph) compile(ctx context.Context, opt *graphCompileOptions) (*composa
 		inputType:     g.inputType(),
 		outputType:    g.outputType(),
 		genericHelper: g.genericHelper,
+
+		fieldMappedNodes: fieldMappedNodes,
 
 		preBranchHandlerManager: &preBranchHandlerManager{h: g.handlerPreBranch},
 		preNodeHandlerManager:   &preNodeHandlerManager{h: handlerPreNode},
